@@ -721,7 +721,15 @@ def check_dc(case):
     offered = [a for a in all_algs if not (corr == "unoffered" and
                                            a == dc_alg)]
     st_ = dict(minVersion=(3, 4), maxVersion=(3, 4))
-    client = {"settings": sc.mk_settings(dc_sig_algs=offered, **st_)}
+    ckw = {}
+    if corr == "delegation_unoffered":
+        # the scheme the end-entity key signed the *delegation* with is not
+        # in the client's signature_algorithms (RFC 9345 section 4.1.3)
+        ckw = {(8, 9): {"rsaSigHashes": ["sha384"]},
+               (4, 3): {"ecdsaSigHashes": ["sha384"]},
+               (8, 7): {"more_sig_schemes": ["Ed448"]}}[DC_CERTS[cert]]
+    client = {"settings": sc.mk_settings(dc_sig_algs=offered, **dict(
+        st_, **ckw))}
     server = {"settings": sc.mk_settings(**st_), "certChain": chain,
               "privateKey": None, "dc_key": dc_key, "del_cred": dc}
     if corr == "cv_other_key":
@@ -754,11 +762,11 @@ def check_dc(case):
             return bad("positive-control-fails:dc:%s:%s" % (cert, dcn),
                        "%r %r used=%r" % (p.co, p.so, used), labels=labels)
         return good(nt=False, labels=labels)
-    if corr == "unoffered":
+    if corr in ("unoffered", "delegation_unoffered"):
         # the server must fall back to its certificate key or fail; the
         # credential must not be used
         if p.co.ok and used:
-            return bad("identity-attributed-without-proof:dc:unoffered",
+            return bad("identity-attributed-without-proof:dc:" + corr,
                        "credential with an algorithm the client did not "
                        "offer was accepted", labels=labels)
         return good(labels=labels)
@@ -1020,7 +1028,8 @@ def explicit(tier, seed):
     for cert in sorted(DC_CERTS):
         for dcn in sorted(DC_KEYS):
             for corr in ("none", "flip_delegation", "other_cert",
-                         "cv_other_key", "cv_flip", "unoffered"):
+                         "cv_other_key", "cv_flip", "unoffered",
+                         "delegation_unoffered"):
                 yield {"k": "dc", "cert": cert, "dc": dcn, "corr": corr}
     for v1 in ("tls13", "tls12"):
         for var in ("control", "hash", "expired", "version", "other_key"):
